@@ -992,6 +992,12 @@ where
                     ..
                 }) = self.ports.get_mut(&port)
                 {
+                    // A port message without ports uses no flow credits and thus could be
+                    // queued without limit. It is never sent by a well-behaved endpoint.
+                    if ports.is_empty() {
+                        return Err(protocol_err(format!("received port data without ports on port {}", &port)));
+                    }
+
                     for port in &ports {
                         if !self.outstanding_remote_port_requests.insert(*port) {
                             return Err(protocol_err(format!(
